@@ -109,3 +109,32 @@ package preference_reversal
 //@   loop 1 invariant [report] forall k int :: 0 <= k && k < iter ==>
 //@             result[k].Id == (*criteriaToReverse)[k].criterion.Id && result[k].Type == (*criteriaToReverse)[k].criterion.Type
 //@             && result[k].ValuesRange == *(*criteriaToReverse)[k].valRange && result[k].AlternativesValues == (*reverseResult.alternativesValues)[k]
+
+// reversedByReport: nw is od with exactly the reported criteria mirrored inside the reported ranges
+//@ pred reversedByReport(nw model.AlternativeWithCriteria, od model.AlternativeWithCriteria, rep []ReversedPreferenceCriterion) =
+//@      nw.Id == od.Id
+//@   && (forall k int :: 0 <= k && k < len(rep) ==> rep[k].Id in nw.Criteria && nw.Criteria[rep[k].Id] == mirrored(rep[k].ValuesRange, od.Criteria[rep[k].Id]))
+//@   && (forall q string :: (forall k int :: 0 <= k && k < len(rep) ==> rep[k].Id != q) ==>
+//@          ((q in nw.Criteria <==> q in od.Criteria) && (q in nw.Criteria ==> nw.Criteria[q] == od.Criteria[q])))
+
+//@ func (*PreferenceReversal).Apply
+//@   property C16 C09 C07
+//@   requires model.distinctCriteria(current.Criteria)
+//@   requires distinctAll(current.ConsideredAlternatives, current.NotConsideredAlternatives)
+//@   ensures [untouched] result.DMP.Criteria == current.Criteria && result.DMP.MethodParameters == current.MethodParameters
+//@   ensures [report_type] typeis(result.Props, PreferenceReversalResult)
+//@   ensures [same_alternatives] len(result.DMP.ConsideredAlternatives) == len(current.ConsideredAlternatives) && len(result.DMP.NotConsideredAlternatives) == len(current.NotConsideredAlternatives)
+//@   ensures [considered] forall i int :: 0 <= i && i < len(current.ConsideredAlternatives) ==>
+//@             reversedByReport(result.DMP.ConsideredAlternatives[i], current.ConsideredAlternatives[i], result.Props.(PreferenceReversalResult).ReversedPreferenceCriteria)
+//@   ensures [not_considered] forall i int :: 0 <= i && i < len(current.NotConsideredAlternatives) ==>
+//@             reversedByReport(result.DMP.NotConsideredAlternatives[i], current.NotConsideredAlternatives[i], result.Props.(PreferenceReversalResult).ReversedPreferenceCriteria)
+//@   ensures [reported_are_criteria] forall k int :: 0 <= k && k < len(result.Props.(PreferenceReversalResult).ReversedPreferenceCriteria) ==>
+//@             exists j int :: 0 <= j && j < len(current.Criteria) && current.Criteria[j].Id == result.Props.(PreferenceReversalResult).ReversedPreferenceCriteria[k].Id
+//@   ensures [fresh_state] fresh(result.DMP.ConsideredAlternatives) && fresh(result.DMP.NotConsideredAlternatives)
+
+//@ lemma [C16] mirror_stays_in_range: forall r utils.ValueRange, v real
+//@   requires r.Min <= v && v <= r.Max
+//@   ensures  r.Min <= mirrored(r, v) && mirrored(r, v) <= r.Max
+//@   ensures  mirrored(r, r.Min) == r.Max && mirrored(r, r.Max) == r.Min
+//@ lemma [C16] mirror_is_involution: forall r utils.ValueRange, v real
+//@   ensures  mirrored(r, mirrored(r, v)) == v
